@@ -20,10 +20,10 @@ func init() {
 		Doc: "the phase0->altair upgrade branch loads the sync committees of the post-state into the context before installing it; ProcessSyncCommitteeUpdates keys the period test on the next epoch; ProcessSlots rotates the context after SetSlot",
 		Run: ruleEpcUpkeep})
 	register(&Rule{Name: "exitqueue.reset", Floor: 2,
-		Doc: "in every loop that keeps a running maximum M together with a count C of elements equal to M (x > M raises M, x == M increments C), raising M re-initialises C on that path (otherwise C counts elements of earlier, smaller maxima)",
+		Doc: "in every loop that keeps a running maximum M together with a count C of elements equal to M (an assignment M = x under a condition whose cut is x > M, or M = max(M, x), raises M; an increment under x == M counts), raising M re-initialises C on that path (otherwise C counts elements of earlier, smaller maxima)",
 		Run: ruleExitQueueReset})
 	register(&Rule{Name: "genesis.init", Floor: 12,
-		Doc: "GenesisFromEth1 performs the spec's initialize_beacon_state_from_eth1 steps with the spec's arguments (genesis time = eth1 time + GENESIS_DELAY, fork versions, eth1 data count/hash, empty-body header root, randao seed, per-deposit tree-root update before each ProcessDeposit, effective-balance rounding/cap and activation at MAX_EFFECTIVE_BALANCE, genesis validators root after activation, context loading); signature/proof skipping is requested only by the kick-start helpers; IsValidGenesisState compares with MIN_GENESIS_TIME and MIN_GENESIS_ACTIVE_VALIDATOR_COUNT",
+		Doc: "GenesisFromEth1 performs the spec's initialize_beacon_state_from_eth1 steps with the spec's arguments (genesis time = eth1 time + GENESIS_DELAY, fork versions, eth1 data count/hash, empty-body header root, randao seed, per-deposit tree-root update before each ProcessDeposit, effective-balance rounding/cap and activation at MAX_EFFECTIVE_BALANCE, genesis validators root after activation, context loading); signature/proof skipping is requested only by the kick-start helpers. Helpers and local closures of the package are read in place; arguments are judged in their resolved normal form, identities by the object an expression resolves to, conditions by the comparisons that hold on the way to a call (the two tests of IsValidGenesisState are cmp.spec entries)",
 		Run: ruleGenesisInit})
 }
 
@@ -524,6 +524,24 @@ func ruleEpcUpkeep(c *Ctx) {
 // ruleExitQueueReset works on normal forms: a "raise" is an assignment M = x that stands under a condition whose cut
 // is x > M (any spelling, either branch), or the statement M = max(M, x) (which is what `if x > M { M = x }` with
 // nothing else in the branch is after load); a "count" is an increment of C under a condition whose cut is x == M.
+// factSays: does the fact say  a (op) b  for the given polynomials (named form), up to the integer normal form of cuts?
+func factSays(info *types.Info, f pathFact, a, b Poly, op token.Token) bool {
+	fop := f.be.Op
+	if f.neg {
+		fop = negOp[fop]
+	}
+	if _, isCmp := negOp[fop]; !isCmp {
+		return false
+	}
+	px, ok1 := exprPoly(info, f.be.X, nil, nil, 0)
+	py, ok2 := exprPoly(info, f.be.Y, nil, nil, 0)
+	if !ok1 || !ok2 {
+		return false
+	}
+	got, want := polyAdd(px, py, -1), polyAdd(a, b, -1)
+	return canonCut(got, fop) == canonCut(want, op) && cutSide(got, fop) == cutSide(want, op)
+}
+
 func ruleExitQueueReset(c *Ctx) {
 	n := 0
 	c.P.funcDecls(func(pk *packages.Package, fd *ast.FuncDecl) {
@@ -532,23 +550,7 @@ func ruleExitQueueReset(c *Ctx) {
 		}
 		info := pk.TypesInfo
 		parents := parentMap(fd.Body)
-		// does a fact say  a (op) b  for the given polynomials, up to the integer normal form of cuts?
-		says := func(f pathFact, a, b Poly, op token.Token) bool {
-			fop := f.be.Op
-			if f.neg {
-				fop = negOp[fop]
-			}
-			if _, isCmp := negOp[fop]; !isCmp {
-				return false
-			}
-			px, ok1 := exprPoly(info, f.be.X, nil, nil, 0)
-			py, ok2 := exprPoly(info, f.be.Y, nil, nil, 0)
-			if !ok1 || !ok2 {
-				return false
-			}
-			got, want := polyAdd(px, py, -1), polyAdd(a, b, -1)
-			return canonCut(got, fop) == canonCut(want, op) && cutSide(got, fop) == cutSide(want, op)
-		}
+		says := func(f pathFact, a, b Poly, op token.Token) bool { return factSays(info, f, a, b, op) }
 		ast.Inspect(fd.Body, func(nd ast.Node) bool {
 			var body *ast.BlockStmt
 			switch x := nd.(type) {
